@@ -8,6 +8,7 @@
 -/
 import ClientGoVerif.Proofs.MvccWrites
 import ClientGoVerif.Proofs.Perc
+import ClientGoVerif.Proofs.MvccTemporal
 namespace CGV.Props.C03
 open CGV CGV.Mvcc CGV.Perc
 
@@ -32,6 +33,18 @@ theorem rolled_back_key_refuses_commit (s : Store) (k : Bytes) (T C : Nat) (c : 
     (hc : txnCommitInfo (getEntry s.kv k).writes T = some c) (hv : c.vt = .rollback) :
     commitKey s k T C = .error .retryable := by
   simp [commitKey, hl, hc, hv]
+
+/-- what makes a success answer safe to give: once the commit record is in the store, NO later command sequence —
+    including rollback / cleanup / resolve-as-rolled-back requests for the same transaction from confused resolvers —
+    can remove it or put a rollback record of the transaction next to it (GC and destroy-range aside) -/
+theorem success_answer_cannot_be_undone (w : Write) (k : Bytes) (s : Store) (cs : List Cmd) (hs : SInv s)
+    (hok : OkAll s cs) (hg : GuardAll (fun _ lab => lab.keepsRecord w) k s cs)
+    (hw : w ∈ (getEntry s.kv k).writes) (hdata : w.vt ≠ .rollback) :
+    w ∈ (getEntry (runAll s cs).kv k).writes ∧
+      ∀ w2 ∈ (getEntry (runAll s cs).kv k).writes, w2.startTS = w.startTS → w2.vt ≠ .rollback := by
+  have hin := runAll_record_stays w k s cs hs hok hg hw
+  refine ⟨hin, fun w2 h2 hst hv => ?_⟩
+  exact hdata (((runAll_inv s cs hs hok).2 k).nomix w2 h2 w hin hst hv)
 
 theorem owner_rollback_only_before_commit_point (m m' : MState) (client : String) (fate : Fate) (S : Nat) (keys : List Bytes)
     (h : Monitor.step m (.rollback client fate S keys) = .ok m') :
